@@ -33,6 +33,7 @@ import (
 
 	"github.com/blugelabs/bluge"
 	"github.com/blugelabs/bluge/index"
+	"github.com/blugelabs/bluge/index/mergeplan"
 
 	"verif/harness/hlib"
 )
@@ -544,7 +545,7 @@ func (h *HR) newCase(lt *lifetime, dir, work string, f []string) *caseRun {
 		n: h.n, unsafe: kvInt(f, "unsafe", 0) == 1, merge: kvInt(f, "merge", 2), jit: kvInt(f, "jit", 0),
 		rng: hlib.NewRand(uint64(kvInt(f, "seed", 1))), files: map[string][]byte{}, inflight: map[string][]byte{},
 		isFile: map[uint64]bool{}, epochK: map[uint64]int{}, introSem: make(chan struct{}, 1), tokC: map[int]int{},
-		acked: map[int]bool{}, readers: map[int]*index.Snapshot{}, imgEvery: 8, prev: map[string][]byte{}, junk: map[string][]byte{}, lt: lt}
+		acked: map[int]bool{}, readers: map[int]*index.Snapshot{}, imgEvery: 8, prev: map[string][]byte{}, junk: map[string][]byte{}, lt: lt, mergeSeg: map[uint64]bool{}}
 	nap := kvInt(f, "nap", 0)
 	noMerge := c.merge < 0
 	if nap > 0 || noMerge {
@@ -554,8 +555,8 @@ func (h *HR) newCase(lt *lifetime, dir, work string, f []string) *caseRun {
 				cfg.PersisterNapUnderNumFiles = 100000
 			}
 			if noMerge { // merge=-1: no file merges, no in-memory merges: one segment per batch stays one segment
-				cfg.MergePlanOptions.MaxSegmentsPerTier = 10000
-				cfg.MergePlanOptions.SegmentsPerMergeTask = 10000
+				cfg.MergePlanOptions = mergeplan.DefaultMergePlanOptions
+				cfg.MergePlanOptions.MaxSegmentSize = 1 // no segment is eligible for a merge
 				cfg.MinSegmentsForInMemoryMerge = 1 << 30
 			}
 		}
@@ -609,7 +610,7 @@ func (h *HR) endLifetime(out func(string, string), st *hlib.Stats) {
 		_ = r.Close()
 	}
 	if lt.faults != nil {
-		lt.faults.clear()
+		lt.faults.clear(true)
 	}
 	c.closeWriter()
 	re := "reopened"
@@ -1147,13 +1148,20 @@ func (h *HR) Exec(line string, out func(string, string), st *hlib.Stats, work st
 		for _, s := range f[1:] {
 			wg.Add(1)
 			sp := parseSpec(s)
-			if f[0] == "par" {
+			if f[0] == "par" || h.Mode.Faults {
 				go c.runBatch(sp, &wg)
 			} else {
 				c.runBatch(sp, &wg)
 			}
 		}
-		wg.Wait()
+		if !waitTimeout(&wg, 60*time.Second) {
+			// a Batch call that does not return: an observation, and the end of this lifetime
+			c.mu.Lock()
+			c.log = append(c.log, rec{op: "hang batch", state: "hang"})
+			c.mu.Unlock()
+			lt.dead = true
+			h.emitLifetime(lt, out, st)
+		}
 	case "reissue":
 		// two-fault scenario: introduce exactly (torn epoch - recovered epoch) batches while the persister naps, none of
 		// which adds a segment, so that the next snapshot is written under the torn epoch and is shorter than the torn file
